@@ -7,6 +7,7 @@ counter-models on the real function.
 """
 import time
 import inspect
+import ast
 import z3
 from . import core
 from .core import I, R, B, dense, Exec, Heap, Dict, Set, Arr, SV, SLV, PyConst, Unsupported
@@ -261,7 +262,15 @@ def verify(func, spec, name, source=None, timeout_ms=TIMEOUT_MS):
         fdef, src = core.get_function_ast(func, source, short)
         p = spec['build']()
         ex = Exec(fdef, getattr(func, '__globals__', {}), None)
-        env = {a.arg: p.env[a.arg] for a in fdef.args.args}
+        p.ex = ex
+        env = {}
+        n_args, defaults = len(fdef.args.args), fdef.args.defaults
+        for i_, a in enumerate(fdef.args.args):
+            if a.arg in p.env: env[a.arg] = p.env[a.arg]
+            else:
+                d_ = i_ - (n_args - len(defaults))           # a parameter the contract does not plant takes its (literal) default
+                if d_ < 0 or not isinstance(defaults[d_], ast.Constant): raise KeyError(a.arg)
+                env[a.arg] = core.PyConst(defaults[d_].value)
         outs = ex.run(env, p.heap, [])
     except Unsupported as e:
         res['unsupported'] = str(e)
@@ -301,6 +310,7 @@ def verify(func, spec, name, source=None, timeout_ms=TIMEOUT_MS):
         # instantiation terms: the arbitrary index, 0, and witnesses introduced on the path
         terms = inst_terms(ex, k, out.pc)
         hyps = spec['requires'](p, terms) + expand(out.pc, terms) + list(ex.side) + nonempty_axioms(ex, terms)
+        if 'lemmas' in spec: hyps = hyps + spec['lemmas'](p, ex, terms)
         if out.kind == 'raise':
             cond = allowed.get(out.exc)
             if cond is None:
